@@ -292,7 +292,7 @@ class Interp(object):
                 loc[name] = kwargs.pop(name)
             elif name in defaults:
                 loc[name] = self.eval_default(fi, defaults[name])
-                if star_open is not None:
+                if star_open is not None and not getattr(self, 'no_open_fork', False):
                     # an open **mapping may also supply this parameter
                     if self.choose(2, 'open kw %s' % name) == 1:
                         loc[name] = self.open_value(star_open, name)
